@@ -259,3 +259,76 @@ def check_cdb(cmd, cdb, a, expect_op=None):
     if any(resid):
         out.append(("residual", "bits outside every field set: %s" % bytes(resid).hex()))
     return out
+
+
+# ---------------------------------------------------------------------------
+class Huge:
+    """Stands in for a byte buffer too large to allocate (>= 1 MiB): it only has
+    a length.  Used so that the *real constructors* can be driven with the high
+    bits of 24/32-bit allocation and transfer lengths; only len() is ever taken
+    of it by the library code under test (SCSICommand.__init__ allocates, the
+    transports take len())."""
+
+    def __init__(self, n=0):
+        self.n = int(n)
+
+    def __len__(self):
+        return self.n
+
+    def __bool__(self):
+        return self.n > 0
+
+
+class huge_buffers:
+    """context manager: inside, `bytearray(n)` evaluated in scsi_command.py
+    returns a Huge for n >= 1 MiB (module-global injection; the builtin is
+    untouched everywhere else)."""
+
+    LIMIT = 1 << 20
+
+    def __enter__(self):
+        import pyscsi.pyscsi.scsi_command as sc
+
+        self.sc = sc
+        real = bytearray
+
+        def lazy(n=0):
+            if isinstance(n, int) and n >= self.LIMIT:
+                return Huge(n)
+            return real(n)
+
+        sc.bytearray = lazy
+        return self
+
+    def __exit__(self, *a):
+        try:
+            del self.sc.bytearray
+        except AttributeError:
+            pass
+        return False
+
+
+def huge_cases(cmd, rng):
+    """argument tuples whose buffers would be 1 MiB .. 2^41 bytes: every single-bit
+    value and all-ones of the allocation / transfer-length argument."""
+    from . import gen as _g
+
+    for name in int_args(cmd):
+        kind, width, _d = cmd.args[name]
+        if kind not in ("alloc", "tl"):
+            continue
+        for bs in ([512, 4096] if "blocksize" in cmd.args else [None]):
+            for v in _g.boundary(width):
+                unit = bs or 1
+                if v * unit < huge_buffers.LIMIT:
+                    continue
+                a = base_args(cmd, "rand", rng)
+                if bs:
+                    a["blocksize"] = bs
+                a[name] = v
+                for n2, (k2, _w2, _d2) in cmd.args.items():
+                    if k2 == "wdata":
+                        a[n2] = Huge(a["blocksize"] * a["tl"])
+                    elif k2 == "blockdata":
+                        a[n2] = pattern_bytes(a["blocksize"], 1)
+                yield a
